@@ -518,3 +518,9 @@ def tlc_cases(module, constants, invariants, overrides=None, mc_defs=None, timeo
     cases = printed_json(r.out)
     shutil.rmtree(d, ignore_errors=True)
     return r, cases
+
+
+def quiet_threads():
+    """Exceptions that end a pipeline thread are part of many scenarios; do not print their tracebacks."""
+    import threading
+    threading.excepthook = lambda args: None
